@@ -53,7 +53,10 @@ def concretise(sh, k=0):
     def sto(l, r, nrep, nend, j):
         directed = (l in "<>" and l != "") or (r in "<>" and r != "")
         dist = DISTS[(k + j) % len(DISTS)]
-        return Sto(Desc(l), _units(directed, nrep, j), _ends(directed, nend), Desc(r), Dist(dist[0], list(dist[1])) if dist else None)
+        # terminal descriptors carry a weight in some concretisations (a weight on a terminal changes nothing but the text)
+        wl = [None, None, Fraction(1, 2), None, None, Fraction(3)][(k + j) % 6] if l else None
+        wr = [None, Fraction(2), None, None, Fraction(1, 4), None][(k + j) % 6] if r else None
+        return Sto(Desc(l, -1, wl), _units(directed, nrep, j), _ends(directed, nend), Desc(r, -1, wr), Dist(dist[0], list(dist[1])) if dist else None)
 
     if s["prefix"] != "absent":
         elems.append(tok(s["prefix"], ["OC", "C", "NCC"][k % 3], None, s["left"]))
